@@ -82,8 +82,10 @@ fn p_encode_u64() {
     let is_ok: bool = kani::any();
     let res: Result<u64, Code> = if is_ok { Ok(v) } else { Err(e) };
     let mut out = MaybeUninit::<u64>::new(SENTINEL);
-    let code = into_int_out_result(res, &mut out);
+    let via_method: bool = kani::any();
+    let code = if via_method { IntResult::into_int_out_result(res, &mut out) } else { into_int_out_result(res, &mut out) };
     let slot = unsafe { out.assume_init() };
+    kani::cover!(via_method && is_ok, "ok through the IntResult method");
     if is_ok {
         assert!(code == 0, "C13 Ok encodes to 0");
         assert!(slot == v, "C13 Ok value written to the slot");
@@ -102,7 +104,8 @@ fn p_encode_drop() {
     let is_ok: bool = kani::any();
     let res: Result<D, Code> = if is_ok { Ok(D::new(v)) } else { Err(e) };
     let mut out = MaybeUninit::<D>::uninit();
-    let code = into_int_out_result(res, &mut out);
+    let via_method: bool = kani::any();
+    let code = if via_method { IntResult::into_int_out_result(res, &mut out) } else { into_int_out_result(res, &mut out) };
     assert!(drops() == 0, "C13 encoding drops nothing (value moved into the slot, or Err without payload)");
     if is_ok {
         assert!(code == 0, "C13 Ok encodes to 0");
@@ -141,7 +144,9 @@ fn roundtrip_class<T>(mk: fn() -> T, counted: bool) {
     let is_ok: bool = kani::any();
     let res: Result<T, Code> = if is_ok { Ok(mk()) } else { Err(e) };
     let mut slot = MaybeUninit::<T>::uninit();
-    let code = into_int_out_result(res, &mut slot);
+    // both routes: the free function (used by generated wrappers) and the IntResult helper method
+    let via_method: bool = kani::any();
+    let code = if via_method { IntResult::into_int_out_result(res, &mut slot) } else { into_int_out_result(res, &mut slot) };
     assert!((code == 0) == is_ok, "C13 0 exactly for Ok (any payload class)");
     assert!(drops() == 0, "C13 encoding drops nothing (any payload class)");
     let back: Result<T, Code> = unsafe { from_int_result(code, slot) };
@@ -149,7 +154,7 @@ fn roundtrip_class<T>(mk: fn() -> T, counted: bool) {
     if let Err(e2) = &back { assert!(*e2 == e, "C13 error code preserved"); }
     drop(back);
     assert!(drops() == (is_ok && counted) as u32, "C13 the success value is dropped exactly once (any payload class)");
-    kani::cover!(is_ok, "ok");
+    kani::cover!(is_ok && via_method, "ok through the method");
     kani::cover!(!is_ok, "err");
 }
 #[kani::proof] fn p_class_zst_drop() { roundtrip_class::<Zd>(|| Zd, true); }
